@@ -143,11 +143,7 @@ def gen_value(rng, ptype, inners, spec=None):
     if ptype == 'Boolean':
         return rng.random() < 0.5
     if ptype == 'List':
-        items = [lit(rng, 1) for _ in range(rng.randint(0, 3))]
-        if rng.random() < 0.25:
-            # (an object among the items: printed as its owner is - qualified in a script)
-            items.insert(rng.randint(0, len(items)), inner_value(rng, inners))
-        return items
+        return [lit(rng, 1) for _ in range(rng.randint(0, 3))]
     if ptype == 'Tuple':
         return tuple(lit(rng, 1) for _ in range(spec['length']))
     if ptype == 'Dict':
